@@ -77,14 +77,17 @@ def timeouts_jobs(tier):
                             "resolution); nested requeue = contract stub" % nq))
     return J
 
-def answer_jobs(tier, kf_group="answer_step"):
+def answer_jobs(tier, kf_group="answer_step", owner=True):
+    """owner=True (C05): the stale-connection conjunct is asserted / handled as a known finding of C05;
+    owner=False (C06, C20 reuse the same step for their own rules): that one assertion is compiled out."""
     J = []
     for rx_tcp in (0, 1):
         for on_other in (0, 1):
             J.append(dict(name="answer_step_rx%s_%s" % ("tcp" if rx_tcp else "udp", "stale" if on_other else "current"),
-                      harness="../machine/answer_step.c", defines=["-DRX_TCP=%d" % rx_tcp, "-DON_OTHER=%d" % on_other],
+                      harness="../machine/answer_step.c",
+                      defines=["-DRX_TCP=%d" % rx_tcp, "-DON_OTHER=%d" % on_other] + ([] if owner else ["-DKF_stale_conn_reply"]),
                       real=LIB, support=SUP, unwind=8, backend="cadical", timeout=1800, mem_gb=16,
-                      kf_group=(kf_group + "_stale") if on_other else None,
+                      kf_group=(kf_group + "_stale") if (on_other and owner) else None,
                       replace=["ares_requeue_query"], replace_with=["rq_stub.c"], unwindset=UW + ["ares_send_query:2", "ares_requeue_query:4"],
                       witnesses=["end", "dropped"] + ([] if on_other else ["delivered", "failover", "edns downgrade"] +
                                                       ([] if rx_tcp else ["tcp upgrade"])),
@@ -145,3 +148,27 @@ def send_early_jobs(tier):
                  bound="ONE ares_send_nolock: 0/1 servers, cache miss/hit/error, NOCACHE on/off, duplicate failing with any "
                        "status, 0x20 on/off (name rewrite may fail), USEVC on/off, ANY single allocation failure (1st..6th), any "
                        "outcome of the first send attempt (contract stub)")]
+
+def close_jobs(tier):
+    J = []
+    for nq in ((2,) if tier == "quick" else (2, 3)):
+        J.append(dict(name="close_conn_nq%d_reentrant" % nq, harness="../machine/close_step.c", defines=["-DNQ=%d" % nq],
+                      real=LIB, support=SUP, unwind=8, backend="cadical", timeout=1800, mem_gb=8,
+                      replace=["ares_requeue_query"], replace_with=["rq_stub.c"], unwindset=UW + ["ares_send_query:2", "ares_requeue_query:5"],
+                      witnesses=["end", "callback cancelled during teardown"],
+                      bound="ONE ares_close_connection of a connection carrying %d requests; each requeued request may be completed "
+                            "through its callback, and callbacks may call ares_cancel (depth 1); then a final ares_cancel" % nq))
+    return J
+
+def readanswers_jobs(tier):
+    J = []
+    for usevc in (0, 1):
+        J.append(dict(name="readanswers_followup_%s" % ("tcp" if usevc else "udp"), harness="../machine/readanswers_step.c",
+                      defines=["-DUSEVC=%d" % usevc, "-DVP_REALLOC_SIZES=32,64", "-DVP_REALLOC_ARRAYCOPY"],
+                      real=LIB, support=SUP, unwind=8, backend="cadical", timeout=1800, mem_gb=8, kf_group="readanswers_followup",
+                      replace=["ares_requeue_query"], replace_with=["rq_stub.c"], unwindset=UW + ["ares_send_query:3", "ares_requeue_query:5", "memmove.0:34", "memmove.1:34"],
+                      witnesses=["end", "follow-up request started from the callback"],
+                      bound="ONE read_answers with one complete frame answering the request in flight on a %s connection; the "
+                            "completion callback may start a follow-up request whose send (one level, every socket/cookie/"
+                            "serialisation failure) may land on the connection under read" % ("TCP" if usevc else "UDP")))
+    return J
